@@ -290,8 +290,8 @@ PROPS = {
         "partial": "that each rule body is the scan its class says is established by classification + permutation search, not by translating the body",
     },
     "C20": {
-        "proofs": ["ZlProofs.Props.C20", "ZlProofs.Props.C05"],  # C05: two rules can only be compared on "the same content" if each is a function of the object (no memory between calls)
-        "corr": ["names", "thresholds"],
+        "proofs": ["ZlProofs.Props.C20", "ZlProofs.Props.C05", "ZlProofs.Props.Bodies"],  # C05: two rules can only be compared on "the same content" if each is a function of the object (no memory between calls); Bodies: twin_agrees, dsa_twins, san_ian_twins on the regenerated terms
+        "corr": ["names", "thresholds", "bodies"],
         "search": ["c20", "c05"],  # c05: histories, incl. a re-used read buffer — a twin that remembers an earlier answer contradicts its mirror image
         "trusted_base": TB_COMMON + ["the pair table in ZlProofs/Props/C20.lean and harness/pairs.go (transcribed from the property)"],
         "assumptions": [],
